@@ -389,12 +389,14 @@ def pick_layout(rng):
     return rng.choice(['C', 'C', 'C', 'F', 'strided'])
 
 
-def run_pre(case, obj=None):
+def run_pre(case, obj=None, keep=None):
     with warnings.catch_warnings():
         warnings.simplefilter('ignore')
         t = traces_of(case)
         before = t.copy()
         r = (obj if obj is not None else build(case))(t)
+        if keep is not None:
+            keep.append(r)          # the very array that was returned: re-exported after all later calls
         o = out_obs(r)
         o['input_unchanged'] = bool(np.array_equal(t, before, equal_nan=False)) if t.dtype.kind != 'f' else bool(np.array_equal(t, before, equal_nan=True))
         return o
@@ -797,7 +799,7 @@ def tf_case(rng, op, mode, f1, f2, dt, w, n):
     return c
 
 
-def tf_oracle(case, o):
+def tf_oracle(case, o, full=None, sample=None):
     """Oracle side of a time-frequency observation: the preprocessed chunks and numpy's FFTs of them (nothing of scared is used)."""
     if 'raised' in o:
         return o
@@ -809,8 +811,12 @@ def tf_oracle(case, o):
         if f1['t'] == 'none' or f2['t'] == 'none':
             f1 = f2 = (f2 if f1['t'] == 'none' else f1)
         pre = {'centered': np_center, 'standardized': np_standardize}.get(case['mode'], lambda x: x)
-        x1 = pre(t[:, code_frame(f1)])
-        x2 = pre(t[:, code_frame(f2)])
+        if full is not None:           # statistics over the whole (large) batch, oracle values for the sampled rows only
+            x1 = pre(full[:, code_frame(f1)])[sample]
+            x2 = pre(full[:, code_frame(f2)])[sample]
+        else:
+            x1 = pre(t[:, code_frame(f1)])
+            x2 = pre(t[:, code_frame(f2)])
         o['x1'] = exact_rows(x1)
         o['x2'] = exact_rows(x2)
         rf, irf = [], []
@@ -1113,6 +1119,18 @@ class DecoratorKind(Kind):
 
 # ------------------------------------------------------------------------------------------------ kind: one object, several calls
 
+def late_obs(obs, kept):
+    """"Earlier results intact": every array a call returned is exported AGAIN after all later calls (same oracle tables);
+    it must still equal the spec value of its own call."""
+    late = []
+    for o, r in zip(obs, kept):
+        if r is None or 'raised' in o:
+            late.append(dict(o))
+        else:
+            late.append(dict(o, **{k: v for k, v in out_obs(r).items()}, late=True))
+    return late
+
+
 class ReuseKind(Kind):
     name = 'object_reuse'
     header = HDR
@@ -1129,9 +1147,12 @@ class ReuseKind(Kind):
 
     def _calls(self, rng, widths, style_for):
         calls = []
+        same = rng.random() < 0.4          # equal shape and dtype for every call: a recycled output buffer would be overwritten
+        dt0, n0 = rng.choice(DTYPES), rng.randint(1, 4)
         for w in widths:
-            dt = rng.choice(DTYPES)
-            n = rng.randint(1, 4)
+            dt = dt0 if same else rng.choice(DTYPES)
+            n = n0 if same else rng.randint(1, 4)
+            w = widths[0] if same else w
             calls.append({'dtype': dt, 'width': w, 'rows': rand_rows(rng, dt, n, w, style_for(dt)), 'layout': pick_layout(rng)})
         return calls
 
@@ -1212,10 +1233,11 @@ class ReuseKind(Kind):
         with warnings.catch_warnings():
             warnings.simplefilter('ignore')
             obj = build(subs[0])            # built ONCE; the traces play no part in the construction
-        obs = []
+        obs, kept = [], []
         for sc in subs:
+            keep = []
             try:
-                o = run_pre(sc, obj)
+                o = run_pre(sc, obj, keep)
             except Exception as e:
                 o = {'raised': type(e).__name__, 'msg': str(e)[:120]}
             if sc['fam'] == 'tf':
@@ -1223,11 +1245,13 @@ class ReuseKind(Kind):
             elif sc.get('kind') == 'fft_modulus':
                 o = fm_oracle(sc, o)
             obs.append(o)
-        return {'calls': obs}
+            kept.append(keep[0] if keep else None)
+        return {'calls': obs + late_obs(obs, kept)}
 
     def coq(self, case, obs):
         parts = []
-        for sc, o in zip(self._sub(case), obs.get('calls', [])):
+        subs = self._sub(case)
+        for sc, o in zip(subs + subs, obs.get('calls', [])):
             if sc['fam'] == 'comb':
                 parts.append(f'(AComb {self._comb.coq(sc, o)})')
             elif sc['fam'] == 'tf':
@@ -1371,9 +1395,14 @@ class MultiObjectKind(ReuseKind):
                 objs = [rng.choice([lambda: self._comb_base(rng, rng.choice(COMB_OPS), w, self._comb_shape(rng, w)), lambda: self._fo_base(rng),
                                     lambda: self._tf_base(rng, w)])() for _ in range(k)]
             calls = []
+            same = rng.random() < 0.4
             for i in self._order(rng, k):
-                wc = w if rng.random() < 0.7 else rng.randint(w, w + 2)
-                calls.append(dict(self._call(rng, objs[i], wc), obj=i))
+                wc = w if (same or rng.random() < 0.7) else rng.randint(w, w + 2)
+                c = dict(self._call(rng, objs[i], wc), obj=i)
+                if same and calls and objs[i]['fam'] != 'tf' and objs[i].get('kind') not in ('serialize_bit', 'standardize', 'StandardizeOn'):
+                    c['dtype'] = calls[0]['dtype'] if not (objs[i].get('kind') == 'serialize_bit') else c['dtype']
+                    c['rows'] = rand_rows(rng, c['dtype'], len(calls[0]['rows']), wc, 'small')
+                calls.append(c)
             yield {'objects': objs, 'calls': calls}
 
     def _sub(self, case):
@@ -1388,14 +1417,15 @@ class MultiObjectKind(ReuseKind):
                     objs.append(build(b))
                 except Exception as e:
                     objs.append(e)
-        obs = []
+        obs, kept = [], []
         for c, sc in zip(case['calls'], self._sub(case)):
             obj = objs[c['obj']]
+            keep = []
             if isinstance(obj, Exception):
                 o = {'raised': type(obj).__name__, 'msg': str(obj)[:120]}
             else:
                 try:
-                    o = run_pre(sc, obj)
+                    o = run_pre(sc, obj, keep)
                 except Exception as e:
                     o = {'raised': type(e).__name__, 'msg': str(e)[:120]}
             if sc['fam'] == 'tf':
@@ -1403,7 +1433,8 @@ class MultiObjectKind(ReuseKind):
             elif sc.get('kind') == 'fft_modulus':
                 o = fm_oracle(sc, o)
             obs.append(o)
-        return {'calls': obs}
+            kept.append(keep[0] if keep else None)
+        return {'calls': obs + late_obs(obs, kept)}
 
     def nontrivial(self, case, obs):
         return len({c['obj'] for c, o in zip(case['calls'], obs.get('calls', [])) if 'rows' in o}) >= 2
@@ -1422,4 +1453,109 @@ class MultiObjectKind(ReuseKind):
                 yield dict(case, calls=calls[:i] + calls[i + 1:])
 
 
-KINDS = [PromoteKind(), CombKind(), FirstOrderKind(), TimeFreqKind(), FftModulusKind(), RowIndepKind(), DecoratorKind(), ReuseKind(), MultiObjectKind()]
+# ------------------------------------------------------------------------------------------------ kind: large batches
+
+class BigBatchKind(Kind):
+    """Batch-size boundaries for every preprocess with batch statistics: n_traces x n_samples at and above 65536 elements."""
+    name = 'large_batch'
+    header = HDR
+    case_type = 'big_case'
+    check_fn = 'big_check'
+    shard = 1
+    rule = ('time-frequency classes in centered / standardized mode, center, standardize, CenterOn / StandardizeOn without given vectors and CenteredProduct '
+            'without mean on batches of 257x256, 1025x64, 400x256, 1500x64 traces made of 3-5 distinct rows (run-length encoded, expanded in Coq where the '
+            'batch mean / variance is computed over the whole batch); compared: first and last occurrence of each distinct row and the last 3 rows')
+
+    def __init__(self):
+        self._comb, self._fo, self._tf = CombKind(), FirstOrderKind(), TimeFreqKind()
+
+    def gen(self, rng, tier):
+        thorough = tier != 'quick'
+        shapes = [(1025, 64), (257, 256), (1500, 64), (400, 256)] if thorough else [(1025, 64), (257, 256)]
+        bases = []
+        for op in TF_OPS:
+            bases.append({'fam': 'tf', 'op': op, 'mode': 'centered' if len(bases) % 2 == 0 else 'standardized', 'f1': F_NONE, 'f2': F_NONE})
+        bases += [{'fam': 'tf', 'op': 'WindowFHT', 'mode': 'centered', 'f1': f_slice(0, 8), 'f2': f_slice(8, 16)},
+                  {'fam': 'fo', 'kind': 'center', 'precision': 'float32'}, {'fam': 'fo', 'kind': 'standardize', 'precision': 'float32'},
+                  {'fam': 'fo', 'kind': 'CenterOn', 'precision': 'float32'}, {'fam': 'fo', 'kind': 'StandardizeOn', 'precision': 'float64'},
+                  {'fam': 'comb', 'op': 'CenteredProduct', 'f1': f_slice(0, 4), 'f2': F_NONE, 'mode': 'full', 'distance': None, 'precision': 'float32', 'mean': None},
+                  {'fam': 'comb', 'op': 'CenteredProduct', 'f1': f_list([0, 63]), 'f2': f_list([1, 2, 62]), 'mode': 'full', 'distance': None, 'precision': 'float32', 'mean': None}]
+        for bi, base in enumerate(bases):
+            for si, (n, w) in enumerate(shapes):
+                if not thorough and si != bi % 2:
+                    continue
+                dt = rng.choice(['uint8', 'int8', 'int16', 'float32'])
+                k = rng.randint(3, 5)
+                rows = rand_rows(rng, dt, k, w, 'small')
+                for j in range(w):                                   # every column varies (no 0/0 in standardisation)
+                    if len({r[j] for r in rows}) == 1:
+                        rows[0][j] = rows[0][j] + 1 if rows[0][j] < 100 else rows[0][j] - 1
+                # run-length encoding: unequal runs spread over the batch so that any block of rows has its own statistics
+                rle, left = [], n
+                while left > 0:
+                    c = min(left, rng.choice([1, 2, 7, n // 5, n // 3]) or 1)
+                    rle.append([rng.randrange(k), c])
+                    left -= c
+                for d in range(k):                                   # every distinct row occurs
+                    if all(i != d for i, _ in rle):
+                        rle[rng.randrange(len(rle))][0] = d
+                yield {'base': base, 'dtype': dt, 'width': w, 'rows': rows, 'rle': rle}
+
+    def _expand(self, case):
+        idx = [i for i, c in case['rle'] for _ in range(c)]
+        return idx, np.array([case['rows'][i] for i in idx], dtype=case['dtype']).reshape(len(idx), case['width'])
+
+    def _sample(self, idx):
+        n = len(idx)
+        pos = set(range(max(0, n - 3), n))
+        for d in set(idx):
+            occ = [p for p, i in enumerate(idx) if i == d]
+            pos.update((occ[0], occ[-1]))
+        return sorted(pos)
+
+    def run(self, case):
+        idx, t = self._expand(case)
+        sample = self._sample(idx)
+        sub = dict(case['base'], dtype=case['dtype'], width=case['width'], rows=[case['rows'][idx[p]] for p in sample])
+        with warnings.catch_warnings():
+            warnings.simplefilter('ignore')
+            before = t.copy()
+            r = build(sub)(t)
+            o = out_obs(r[sample] if isinstance(r, np.ndarray) and r.ndim == 2 and r.shape[0] == t.shape[0] else r)
+            o['input_unchanged'] = bool(np.array_equal(t, before))
+        if sub['fam'] == 'tf':
+            o = tf_oracle(sub, o, full=t, sample=sample)
+        o['sample'] = sample
+        return o
+
+    def coq(self, case, obs):
+        idx = [i for i, c in case['rle'] for _ in range(c)]
+        sample = obs.get('sample', [])
+        sub = dict(case['base'], dtype=case['dtype'], width=case['width'], rows=[case['rows'][idx[p]] for p in sample])
+        b = case['base']
+        inner = (f'(AComb {self._comb.coq(sub, obs)})' if b['fam'] == 'comb' else f'(ATf {self._tf.coq(sub, obs)})' if b['fam'] == 'tf'
+                 else f'(AFo {self._fo.coq(sub, obs)})')
+        rle = C.coq_list(case['rle'], lambda ic: f'({C.coq_nat(ic[0])}, {C.coq_nat(ic[1])})')
+        return '{| bg_rle := %s; bg_rows := %s; bg_inner := %s |}' % (rle, rows_to_coq(case['rows']), inner)
+
+    def oracle(self, case, obs):
+        if 'raised' in obs:
+            return f'raised {obs["raised"]}: {obs.get("msg")}'
+        if not obs.get('input_unchanged', True):
+            return 'the input traces were modified'
+        return None
+
+    def features(self, case, obs):
+        b = case['base']
+        return {'what': b.get('op', b.get('kind')), 'mode': b.get('mode'), 'shape': f'{sum(c for _, c in case["rle"])}x{case["width"]}'}
+
+    def tags(self, case, obs):
+        b = case['base']
+        return ['large_batch', 'big_' + str(b.get('op', b.get('kind')))]
+
+    def sample(self, case, obs):
+        return {'case': dict(case, rows=[r[:6] for r in case['rows']]), 'observed': {'dtype': obs.get('dtype'), 'sample': obs.get('sample')}}
+
+
+KINDS = [PromoteKind(), CombKind(), FirstOrderKind(), TimeFreqKind(), FftModulusKind(), RowIndepKind(), DecoratorKind(), ReuseKind(), MultiObjectKind(),
+         BigBatchKind()]
